@@ -253,17 +253,22 @@ pub fn features(v: &SqlValue) -> Vec<&'static str> {
         } else if f == 0.0 && f.is_sign_negative() {
             out.push("neg_zero");
         } else {
-            // shape of the shortest decimal representation
-            let e = format!("{:e}", f);
-            if let Some((m, x)) = e.split_once('e') {
-                let d = m.chars().filter(|c| c.is_ascii_digit()).count() as i32;
-                if d > 15 {
-                    out.push("digits_gt_15");
-                }
-                // decimal exponent of the integer mantissa: beyond 10^22 no exact fast path exists
-                if x.parse::<i32>().map(|x| (x - (d - 1)).abs() > 22).unwrap_or(false) {
-                    out.push("scale_gt_22");
-                }
+            // shape of the decimal text serde_json / Rust's `{:?}` write (positional up to 1e16,
+            // e-notation beyond): significant digits as written (trailing zeros count) and the
+            // power of ten that scales the integer mantissa
+            let txt = format!("{:?}", f);
+            let (m, x) = match txt.split_once('e') {
+                Some((m, x)) => (m.to_string(), x.parse::<i32>().unwrap_or(0)),
+                None => (txt.clone(), 0),
+            };
+            let frac_len = m.split_once('.').map(|p| p.1.len()).unwrap_or(0) as i32;
+            let digits: String = m.chars().filter(|c| c.is_ascii_digit()).collect();
+            let d = digits.trim_start_matches('0').len();
+            if d > 15 {
+                out.push("digits_gt_15");
+            }
+            if (x - frac_len).abs() > 22 {
+                out.push("scale_gt_22");
             }
             if f != 0.0 && f.abs() < f64::MIN_POSITIVE {
                 out.push("subnormal");
@@ -443,7 +448,11 @@ impl GenOpts {
         }
         let sv = to_sql_value(v, ty);
         let cls = ty_class_of(ty);
-        features(&sv).iter().any(|f| self.no_value.contains(&format!("{}.{}", cls, f)))
+        let fs = features(&sv);
+        if self.no_value.contains(&format!("{}.finite", cls)) && fs.iter().any(|f| *f == "digits_gt_15" || *f == "scale_gt_22") {
+            return true;
+        }
+        fs.iter().any(|f| self.no_value.contains(&format!("{}.{}", cls, f)))
     }
 }
 
